@@ -19,18 +19,20 @@ from cardutil import card
 
 
 def owner(clause):
-    return clause in ('clear-pan-in-result', 'reading-differs', 'rejected-a-must-accept')
+    return clause in ('clear-pan-in-result', 'reading-differs', 'rejected-a-must-accept', 'accepted-a-must-reject')
 
 
-def masked_config(bit, proc):
+def masked_config(bit, proc, numeric=False):
     bc = copy.deepcopy(PKG['bit_config'])
     bc[bit]['field_processor'] = proc
+    if numeric:      # the processor on an element that is also typed as a number
+        bc[bit]['field_python_type'] = 'int'
     return bc
 
 
 def _drive(args):
-    seed, bit, proc, codec = args
-    bc = masked_config(bit, proc)
+    seed, bit, proc, codec, numeric = args
+    bc = masked_config(bit, proc, numeric)
     alpha = isoc.alphabet(codec)
     cap = 99 if bc[bit]['field_type'] == 'LLVAR' else 999
     out = []
@@ -40,7 +42,11 @@ def _drive(args):
         pan = ''.join('1234567890'[(i * 3 + tid) % 10] if i % 5 else '9876543210'[(i + tid) % 10] for i in range(n))
         if tid % 4 == 3:
             pan = isoc.rtext(r, n, alpha, 'safe')
-        m = {'MTI': '1240', 'DE' + bit: pan}
+        if tid in (4, 10, 13):      # repeated digits: the hidden middle also occurs elsewhere in the number
+            pan = (('5' * 12 + '4444', '4' + '1' * 15, '12345637890' + '0' * 8)[tid % 3] * 3)[:n]
+        if numeric:
+            pan = ''.join('123456789'[(i * 7 + tid) % 9] for i in range(min(n, 19)))
+        m = {'MTI': '1240', 'DE' + bit: int(pan) if numeric else pan}
         others = [b for b in bc if b not in ('1', bit) and not bc[b].get('field_processor')]
         for b in r.sample(others, 3):
             m['DE' + b] = isoc.value_for(r, bc[b], alpha)
@@ -70,6 +76,8 @@ def run(rep, wd, tier, seed):
         k = r.choice((10, 10, 11, 12, 14, 16, 19, 25, 40))
         s = ''.join(r.choice('0123456789') for _ in range(k)) if tid % 3 else ''.join(chr(r.choice((r.randrange(32, 127), r.randrange(160, 256), 42))) for _ in range(k))
         c = '*' if tid % 4 == 0 else chr(r.choice((r.randrange(33, 127), 35, 88, 0xb7)))
+        if tid % 9 == 4:         # repeated digits: the hidden middle also occurs at the start of the number
+            s = (('5' * 12 + '4444', '4' + '1' * 15, '12345637890', '0' * 19)[tid % 4] + '7' * 30)[:max(k, 11)]
         kind, out = c15.call(card.mask, s, c) if tid % 4 else c15.call(card.mask, s)
         traces.append({'tid': tid, 'events': [c15.tev('mask', s, c, out if kind == 'ok' and isinstance(out, str) else '', kind)],
                        '_desc': 'mask(%r, %r)' % (s, c)})
@@ -87,7 +95,10 @@ def run(rep, wd, tier, seed):
     for b in var:
         for proc in ('PAN', 'PAN-PREFIX'):
             for codec in (('latin_1', 'cp500') if tier == 'thorough' else ('latin_1' if int(b) % 2 else 'cp500',)):
-                jobs.append((seed, b, proc, codec))
+                jobs.append((seed, b, proc, codec, False))
+        if int(b) % 3 == 2 or tier == 'thorough':
+            for proc in ('PAN', 'PAN-PREFIX'):
+                jobs.append((seed, b, proc, 'latin_1', True))
     outs = isocheck._pool(_drive, jobs)
     rep.extra['masking_configurations'] = len(jobs)
     rep.extra['elements_given_the_processor'] = sorted(var, key=int)
@@ -98,7 +109,7 @@ def run(rep, wd, tier, seed):
 
     def one(i):
         j = jobs[i]
-        c = isoc.consts(masked_config(j[1], j[2]), j[3])
+        c = isoc.consts(masked_config(j[1], j[2], j[4]), j[3])
         return core.tlc_batch('Trace_Iso', 'Trace_Iso.cfg', wd, {'consts': c, 'traces': outs[i]}, 'mask-%d' % i, workers=1)
     with ThreadPoolExecutor(core.NCPU) as ex:
         res = list(ex.map(one, range(len(jobs))))
